@@ -54,6 +54,14 @@ CTL_MUTS = {
  'restr_nostore_alias': (F, "    L[formula] = Lalter_formula\n\n    return Lalter_formula", "    L[formula] = Lalter_formula\n    Lalter_formula.add(next(iter(kripke.states())))\n    return Lalter_formula", ['_checkStateFormula']),
  'bool_alias_states': (F, "            Lformula = set(kripke.states())\n", "            Lformula = kripke.S0\n", ['_checkStateFormula']),
 }
+CTL_MUTS.update({
+ 'eu_no_addnode': (F, "        for v in Lphi[1]-subgraph.nodes():\n            subgraph.add_node(v)\n", "", ['_checkEU']),
+ 'eu_wrong_start': (F, "        L[formula] = subgraph.get_reachable_set_from(Lphi[1])", "        L[formula] = subgraph.get_reachable_set_from(Lphi[0])", ['_checkEU']),
+ 'eu_edge_dir': (F, "                    subgraph.add_edge(w, v)", "                    subgraph.add_edge(v, w)", ['_checkEU']),
+ 'eu_no_reverse': (F, "        subgraph = kripke.get_subgraph(Lphi[0])\n        subgraph = subgraph.get_reversed_graph()", "        subgraph = kripke.get_subgraph(Lphi[0])", ['_checkEU']),
+ 'eu_subgraph_phi1': (F, "        subgraph = kripke.get_subgraph(Lphi[0])", "        subgraph = kripke.get_subgraph(Lphi[1])", ['_checkEU']),
+ 'eu_next_not_filtered': (F, "            for w in (kripke.next(v) & Lphi[1]):", "            for w in (kripke.next(v) | Lphi[1]):", ['_checkEU']),
+})
 
 C = 'CTLS/language.py'
 Lg = 'language.py'
